@@ -49,6 +49,12 @@ Theorem C14x_y0_set_equivariant : forall I0, incl I0 nodelist ->
   veq (y0_set (map phi nl2) (map phi I0)) (blk1 idx nl2 0 (y0_set nodelist I0)).
 Proof. exact (y0_set_equivariant _ _ _ _ _ _ _ _ _ _ _ R). Qed.
 
+(* the *_pure_IC entry points: X0 = [0 if u in initial_recovereds | initial_infecteds else 1 ...], Y0 as above, from the renamed sets *)
+Theorem C14x_node_pure_IC_equivariant : forall sys I0 R0, incl I0 nodelist -> incl R0 nodelist ->
+  veq (node_V0 sys G' (map phi nl2) (x0_sets (map phi nl2) (map phi I0) (map phi R0)) (y0_set (map phi nl2) (map phi I0)))
+      (perm_state idx nl2 sys (node_V0 sys G nodelist (x0_sets nodelist I0 R0) (y0_set nodelist I0))).
+Proof. exact (node_pure_IC_equivariant _ _ _ _ _ _ _ _ _ _ _ R). Qed.
+
 (* (initial vector, vector field) of the relabelled problem = re-ordered (initial vector, vector field): the two
    initial-value problems are conjugate under the linear isomorphism perm_state.  [Cited, not formalised:
    Picard-Lindelof uniqueness then gives solution' (t) = perm_state (solution t) for the exact flows; the
@@ -60,6 +66,14 @@ Theorem C14x_node_problem_equivariant : forall sys X0 Y0 X0' Y0',
   (forall V V' t, veq V' (perm_state idx nl2 sys V) ->
      veq (rhs2_node sys G' (map phi nl2) idx' tr' rc' V' t) (perm_state idx nl2 sys (rhs2_node sys G nodelist idx tr rc V t))).
 Proof. exact (node_problem_equivariant _ _ _ _ _ _ _ _ _ _ _ R). Qed.
+
+(* solutions are mapped to solutions: a curve X with componentwise derivative dX satisfying dX(t) = rhs(X(t), t) in problem 1
+   gives, re-ordered, a curve satisfying it in problem 2 (its componentwise derivative is the re-ordered dX: differentiation
+   is linear).  With uniqueness of solutions (cited) this is solution' = perm_state solution. *)
+Theorem C14x_node_maps_solutions_to_solutions : forall sys X dX,
+  solves (rhs2_node sys G nodelist idx tr rc) X dX ->
+  solves (rhs2_node sys G' (map phi nl2) idx' tr' rc') (fun t => perm_state idx nl2 sys (X t)) (fun t => perm_state idx nl2 sys (dX t)).
+Proof. exact (node_maps_solutions_to_solutions _ _ _ _ _ _ _ _ _ _ _ R). Qed.
 
 (* whole discrete solutions: k explicit Euler steps of any size h from re-ordered initial data give, block by
    block, the re-ordered Euler solution; and their aggregated outputs coincide *)
@@ -268,6 +282,8 @@ Print Assumptions C14x_node_outputs_invariant.
 Print Assumptions C14x_y0_rho_equivariant.
 Print Assumptions C14x_y0_set_equivariant.
 Print Assumptions C14x_node_problem_equivariant.
+Print Assumptions C14x_node_pure_IC_equivariant.
+Print Assumptions C14x_node_maps_solutions_to_solutions.
 Print Assumptions C14x_node_euler_equivariant.
 Print Assumptions C14x_node_euler_outputs_invariant.
 Print Assumptions C14x_adjacency_order_irrelevant.
